@@ -63,9 +63,8 @@ Theorem C13_drain_filter_partition : forall e v c ans take,
     Permutation.Permutation (kept ++ df_taken d ++ df_dropped d ++ leaked) c /\
     (df_panicked d = false -> leaked = []).
 Proof. exact drain_filter_safe. Qed.
-(* Not yet theorems (decided by the differential against std::vec::Vec and the
-   model only): drain's and splice's list semantics, dedup_by, resize, extend,
-   split_off, clone, into_iter, conversions; zero-sized element types. *)
+(* Not theorems (decided by the differential against std::vec::Vec only): splice, dedup_by,
+   clone, into_iter, conversions; zero-sized element types. *)
 
 Example C13_witness :
   let e := mkEcfg 24 8 in
@@ -88,3 +87,57 @@ Print Assumptions C13_truncate.
 Print Assumptions C13_cap_ge_len.
 Print Assumptions C13_reserve_post.
 Print Assumptions C13_drain_filter_partition.
+
+(* ---- more operations refine the list semantics (VecFacts2.v) ---- *)
+From BV Require Import VecFacts2.
+
+(* extend_from_slice / append / extend with an exact hint: the elements are appended in order *)
+Theorem C13_extend_copy : forall e v c xs v',
+  repr e v c -> extend_copy e v xs = Ret v' -> repr e v' (c ++ xs).
+Proof. exact extend_copy_spec. Qed.
+
+(* Extend::extend with any size hint, honest or not: same contents *)
+Theorem C13_extend_iter : forall e v c hint xs v',
+  repr e v c -> extend_iter e v hint xs = Ret v' -> repr e v' (c ++ xs).
+Proof. exact extend_iter_spec. Qed.
+
+Theorem C13_extend_hint_irrelevant : forall e v c h1 h2 xs v1 v2,
+  repr e v c -> extend_iter e v h1 xs = Ret v1 -> extend_iter e v h2 xs = Ret v2 ->
+  contents v1 = contents v2.
+Proof. exact extend_iter_hint_irrelevant. Qed.
+
+Theorem C13_split_off : forall e v c at_ v1 v2,
+  ecfg_ok e -> repr e v c -> split_off e v at_ = Ret (v1, v2) ->
+  repr e v1 (firstn (nn at_) c) /\ repr e v2 (skipn (nn at_) c) /\ at_ <= v_len v.
+Proof. exact split_off_spec. Qed.
+
+(* drain(range): the vector keeps what lies outside the range; what the caller took from the
+   front, what was dropped unseen and what it took from the back are the range, in order *)
+Theorem C13_drain : forall e v c s e0 front back d,
+  repr e v c -> drain v s e0 front back = Ret d ->
+  exists a b, drain_range v s e0 = Ret (a, b) /\
+    repr e (d_vec d) (firstn (nn a) c ++ skipn (nn b) c) /\
+    d_taken_front d ++ d_dropped d ++ rev (d_taken_back d) = firstn (nn b - nn a) (skipn (nn a) c).
+Proof. exact drain_spec. Qed.
+
+Theorem C13_resize_grow : forall e v c new_len x next_id boom v',
+  repr e v c -> v_len v < new_len -> fst (resize e v new_len x next_id boom) = Ret v' ->
+  exists clones, length clones = (nn (new_len - v_len v) - 1)%nat /\
+    repr e v' (c ++ clones ++ [x]) /\ v_len v' = new_len /\
+    f_clones (snd (resize e v new_len x next_id boom)) = new_len - v_len v - 1 /\
+    f_drops (snd (resize e v new_len x next_id boom)) = [].
+Proof. exact resize_grow_spec. Qed.
+
+Theorem C13_resize_shrink : forall e v new_len x next_id boom,
+  new_len <= v_len v ->
+  fst (resize e v new_len x next_id boom) = fst (truncate v new_len boom) /\
+  f_drops (snd (resize e v new_len x next_id boom)) = f_drops (snd (truncate v new_len boom)) ++ [x].
+Proof. exact resize_shrink_spec. Qed.
+
+Print Assumptions C13_extend_copy.
+Print Assumptions C13_extend_iter.
+Print Assumptions C13_extend_hint_irrelevant.
+Print Assumptions C13_split_off.
+Print Assumptions C13_drain.
+Print Assumptions C13_resize_grow.
+Print Assumptions C13_resize_shrink.
